@@ -198,6 +198,7 @@ fn judge(case: &PCase, ctx: &Ctx) -> Outcome {
     Ok(tr) => {
       let act = trace_tl(tr);
       let mut ok = act == expected;
+      let mut undefined_reading = false;
       if !ok {
         for o in [
           Opts { buffer_ignore_notifier_complete: true, ..Opts::default() },
@@ -207,13 +208,18 @@ fn judge(case: &PCase, ctx: &Ctx) -> Outcome {
           Opts { take0_at_first_item: true, ..Opts::default() },
           Opts { take0_at_first_item: true, skip_last_lazy: true, ..Opts::default() },
         ] {
-          if model::eval(&case.node, &inputs, o).map_or(false, |e| e == act) {
-            ok = true;
+          match model::eval(&case.node, &inputs, o) {
+            Some(e) if e == act => ok = true,
+            None => undefined_reading = true,
+            _ => {}
           }
         }
       }
       if ok {
         Verdict::Ok
+      } else if undefined_reading {
+        // (see run_tree) a permitted reading has no defined interleaving for this case: inconclusive
+        return Outcome { labels: vec!["reading-without-defined-interleaving"], ..Outcome::discard() };
       } else {
         let (ea, ee) = (model::strip(&act), model::strip(&expected));
         let kind = if ea == ee {
@@ -340,14 +346,21 @@ fn run_tree(c: &mut dyn Choices, ctx: &Ctx) -> Outcome {
     Ok(tr) => {
       let act = trace_tl(tr);
       let mut ok = act == expected;
+      // a permitted reading under which two inputs of a combinator act in the same step has no defined interleaving: the
+      // reference cannot say what that reading predicts, so a difference is then inconclusive, not a violation
+      let mut undefined_reading = false;
       if !ok {
         'outer: for sl in [false, true] {
           for bi in [false, true] {
             for t0 in 0..3 {
               let o = Opts { skip_last_lazy: sl, buffer_ignore_notifier_complete: bi, take0_immediate: t0 == 1, take0_at_first_item: t0 == 2 };
-              if model::eval(&case.node, &inputs, o).map_or(false, |e| e == act) {
-                ok = true;
-                break 'outer;
+              match model::eval(&case.node, &inputs, o) {
+                Some(e) if e == act => {
+                  ok = true;
+                  break 'outer;
+                }
+                None => undefined_reading = true,
+                _ => {}
               }
             }
           }
@@ -355,6 +368,8 @@ fn run_tree(c: &mut dyn Choices, ctx: &Ctx) -> Outcome {
       }
       if ok {
         Verdict::Ok
+      } else if undefined_reading {
+        return Outcome { labels: vec!["tree:reading-without-defined-interleaving"], ..Outcome::discard() };
       } else {
         let (ea, ee) = (model::strip(&act), model::strip(&expected));
         let kind = if ea == ee {
